@@ -4,8 +4,8 @@
            gen/GenSimdConst.v, regenerated from simd/x86_64/*.asm on every run)
    c_*   : the C code of src/*.c (constants regenerated from the C files). *)
 From Coq Require Import List ZArith String Bool.
-From LJT Require Import lib.Words gen.GenSimdConst model.SimdColor model.SimdSample model.SimdQuant
-  proofs.SimdColorProofs proofs.SimdSampleProofs proofs.SimdQuantProofs proofs.SimdConstProofs.
+From LJT Require Import lib.Words gen.GenSimdConst model.SimdColor model.SimdSample model.SimdQuant model.SimdDct
+  proofs.SimdColorProofs proofs.SimdSampleProofs proofs.SimdQuantProofs proofs.SimdConstProofs proofs.SimdDctProofs.
 Import ListNotations.
 Local Open Scope Z_scope.
 
@@ -112,6 +112,20 @@ Theorem C05_transcription_fingerprint : transcription_fingerprint /\
   forallb (fun t => let '(vb, eb, n) := t in eb * n =? vb) asm_row_inventory = true.
 Proof. exact (conj transcription_fingerprint_ok rows_fill_vectors). Qed.
 Print Assumptions C05_transcription_fingerprint.
+
+(* (6) fast integer forward DCT (jfdctfst): one pass of the kernel equals the C pass whenever the five
+   multiply operands fit in 14 bits (always true for inputs of magnitude <= 1023, e.g. pass 1 on
+   samples); the unconditional statement over blocks of 8-bit samples is REFUTED by a block of
+   black/white stripes (finding ifast-16bit-overflow, replayed on the implementation by the check) *)
+Theorem C05_fdct_ifast_pass_eq_partial : forall d, List.length d = 8%nat ->
+  (Forall in14 (c_operands d) -> map s16 (fdct1 asm_alg (map w16 d)) = fdct1 c_alg d) /\
+  (Forall (fun v => -1023 <= v <= 1023) d -> map s16 (fdct1 asm_alg (map w16 d)) = fdct1 c_alg d).
+Proof. exact (fun d H => conj (fdct1_ifast_eq_partial d H) (fdct1_ifast_eq_small d H)). Qed.
+Print Assumptions C05_fdct_ifast_pass_eq_partial.
+Theorem C05_fdct_ifast_full_refuted :
+  List.length stripes = 64%nat /\ Forall (fun v => -128 <= v <= 127) stripes /\ asm_fdct_ifast stripes <> c_fdct_ifast stripes.
+Proof. exact fdct_ifast_full_refuted. Qed.
+Print Assumptions C05_fdct_ifast_full_refuted.
 
 (* non-vacuity *)
 Example C05_rgb_ycc_nonvacuous :
